@@ -23,8 +23,8 @@ for line in open(os.path.join(V, 'seeded', 'RESULTS.txt')):
 n = len(rows)
 c = sum(1 for r in rows if r[3].startswith('**caught'))
 u = sum(1 for r in rows if r[3].startswith('undecided'))
-rounds = {k: sum(1 for r in rows if r[1].startswith(k)) for k in 'mnpqstuv'}
-print('%d seeded changes (%d from round 1 = m*, %d from round 2 = n*, %d from round 3 = p*, %d from round 4 = q*, %d from round 5 = s*, %d from round 6 = t*, %d from round 7 = u*, %d from round 8 = v*): %d caught (VIOLATION), %d undecided (exit 2), %d missed.\n' % (n, rounds['m'], rounds['n'], rounds['p'], rounds['q'], rounds['s'], rounds['t'], rounds['u'], rounds['v'], c, u, n - c - u))
+rounds = {k: sum(1 for r in rows if r[1].startswith(k)) for k in 'mnpqstuvw'}
+print('%d seeded changes (%d from round 1 = m*, %d from round 2 = n*, %d from round 3 = p*, %d from round 4 = q*, %d from round 5 = s*, %d from round 6 = t*, %d from round 7 = u*, %d from round 8 = v*, %d from round 9 = w*): %d caught (VIOLATION), %d undecided (exit 2), %d missed.\n' % (n, rounds['m'], rounds['n'], rounds['p'], rounds['q'], rounds['s'], rounds['t'], rounds['u'], rounds['v'], rounds['w'], c, u, n - c - u))
 print('| change | what it does | outcome of `./check <property>` |')
 print('|--------|--------------|----------------------------------|')
 for pid, k, summ, out in rows:
